@@ -268,6 +268,10 @@ func (f *form) body(id string) string {
 		return pre + "lg = \"\"; mut(&v); f := v." + m + "; f(); " + out(`"ok"`)
 	case "mvalp":
 		return pre + "p := &v; lg = \"\"; mut(&v); f := p." + m + "; f(); " + out(`"ok"`)
+	case "mvalv2":
+		return pre + "lg = \"\"; mut(&v); f := v." + m + "; f(); f(); " + out(`"ok"`)
+	case "mvalp2":
+		return pre + "p := &v; lg = \"\"; mut(&v); f := p." + m + "; f(); f(); " + out(`"ok"`)
 	case "mvalvc":
 		return pre + "f := v." + m + "; lg = \"\"; mut(&v); f(); " + out(`"ok"`)
 	case "mvalpc":
